@@ -770,8 +770,8 @@ func ruleRangeAlg(p *Prog, r *Result) {
 		}
 		var unsound, loose, errs []string
 		n := 0
-		for nk := 1; nk <= 2; nk++ {
-			names := []string{"rstart", "rend", "k1", "k2"}[:2+nk]
+		for nk := 1; nk <= 3; nk++ {
+			names := []string{"rstart", "rend", "k1", "k2", "k3"}[:2+nk]
 			for mask := 0; mask < 3; mask++ {
 				nilMask := make([]bool, 2+nk)
 				nilMask[0], nilMask[1] = mask == 1, mask == 2
